@@ -13,7 +13,7 @@ func splitContainsPath(p string) (dirNodePath []string, nodeName string, err err
 	}
 	dirNodePath = nodePath[:len(nodePath)-1]
 	nodeName = nodePath[len(nodePath)-1]
-	if nodeName == "" || nodeName == currentDir {
+	if nodeName == "" || nodeName == currentDir || nodeName == parentDir {
 		return nil, "", goaterr.Errorf("Path must contains nodename")
 	}
 	return dirNodePath, nodeName, nil
